@@ -132,7 +132,7 @@ def showLeaf (earlier : List (Nat × Nat)) : Leaf → String
 
 def showBinding (self : Nat) : Binding → String
   | .plain => "p"
-  | .detached => "d"
+  | .detached _ => "d"
   | .ownerless _ => "w"
   | .bound o _ => if o = self then "b" else "o"
 
